@@ -1,4 +1,5 @@
 import QuickAdd.Lemmas.RulesTotal
+import QuickAdd.Lemmas.RRule
 /-! One lemma per value-level production (generated text; the signature literal of each is checked against the regenerated
    table by `decide`): under the registered predicates and the invariants of reachable productions the production does not raise. -/
 namespace QuickAdd
@@ -1092,8 +1093,36 @@ theorem applyId_total_ruleTimeDuration (ts : Ts) (hts : TsOk ts) (args : List Ar
   simp only [List.map, hv1, hv2, hv3]
   exact ruleTimeDuration_total _ _ _ ok1
 
-/-- the productions covered: all but the token readers (`int()` of captured text) and `ruleDOWDOM` (an `rrule` search) -/
-def valueRules : List RuleId := [.ruleAbsorbOnTime, .ruleAbsorbFromInterval, .ruleNamedDOW, .ruleNamedMonth, .ruleNamedHour, .ruleMidnight, .ruleEarlyLatePOD, .rulePOD, .ruleToday, .ruleNow, .ruleTomorrow, .ruleAfterTomorrow, .ruleYesterday, .ruleBeforeYesterday, .ruleEOM, .ruleEOY, .ruleDOMMonth, .ruleDOMMonth2, .ruleMonthDOM, .ruleAtDOW, .ruleNextDOW, .ruleDOWNextWeek, .ruleDOYYear, .ruleDOWPOD, .ruleDOWDate, .ruleDateDOW, .ruleLatentDOM, .ruleLatentDOW, .ruleLatentDOY, .ruleLatentPOD, .ruleQuarterBeforeHH, .ruleQuarterAfterHH, .ruleHalfBeforeHH, .ruleHalfAfterHH, .ruleTODPOD, .rulePODTOD, .ruleDateTOD, .ruleTODDate, .ruleDatePOD, .rulePODDate, .ruleBeforeTime, .ruleAfterTime, .ruleDateDate, .ruleDOMDate, .ruleDateDOM, .ruleDOYDate, .ruleDateTimeDateTime, .ruleTODTOD, .rulePODPOD, .ruleDateInterval, .rulePODInterval, .ruleDurationHalf, .ruleIntervalConjDuration, .ruleIntervalDuration, .ruleDurationInterval, .ruleTimeDuration]
+theorem name_ruleDOWDOM : RuleId.nameOf .ruleDOWDOM = "ruleDOWDOM" := by decide +kernel
+theorem sig_ruleDOWDOM : ∀ r ∈ ruleSigs, r.1 = "ruleDOWDOM" → r.2 = [.attr "isDOW", .attr "isDOM"] := by decide +kernel
+
+theorem applyId_total_ruleDOWDOM (ts : Ts) (hts : TsOk ts) (args : List Art)
+    (hp : (List.zipWith predHolds [.attr "isDOW", .attr "isDOM"] args).all id = true) (hl : args.length = 2)
+    (hok : ∀ a ∈ args, a.v.Ok ∧ valCalOk a.v = true ∧ a.v.YearLe 9990) : ∃ o, applyId .ruleDOWDOM ts (args.map (·.v)) = .ok o := by
+  rcases args with _ | ⟨a1, _ | ⟨a2, _ | ⟨x, rest⟩⟩⟩ <;> simp at hl
+  simp only [List.zipWith, List.all_cons, List.all_nil, id, Bool.and_true, Bool.and_eq_true] at hp
+  obtain ⟨hp1, hp2⟩ := hp
+  obtain ⟨t1, hv1, hq1⟩ := pred_isDOW a1 hp1
+  have ok1 := (hok a1 (by simp)).1; rw [hv1] at ok1
+  obtain ⟨t2, hv2, hq2⟩ := pred_isDOM a2 hp2
+  have ok2 := (hok a2 (by simp)).1; rw [hv2] at ok2
+  simp only [List.map, hv1, hv2]
+  exact ruleDOWDOM_total ts hts _ _ hq1 hq2 ok1 ok2
+
+theorem name_ruleNamedNumberDuration : RuleId.nameOf .ruleNamedNumberDuration = "ruleNamedNumberDuration" := by decide +kernel
+theorem sig_ruleNamedNumberDuration : ∀ r ∈ ruleSigs, r.1 = "ruleNamedNumberDuration" → r.2 = [.regex 138] := by decide +kernel
+
+theorem applyId_total_ruleNamedNumberDuration (ts : Ts) (hts : TsOk ts) (args : List Art)
+    (hp : (List.zipWith predHolds [.regex 138] args).all id = true) (hl : args.length = 1)
+    (hok : ∀ a ∈ args, a.v.Ok ∧ valCalOk a.v = true ∧ a.v.YearLe 9990) : ∃ o, applyId .ruleNamedNumberDuration ts (args.map (·.v)) = .ok o := by
+  rcases args with _ | ⟨a1, _ | ⟨x, rest⟩⟩ <;> simp at hl
+  simp only [List.zipWith, List.all_cons, List.all_nil, id, Bool.and_true, Bool.and_eq_true] at hp
+  obtain ⟨k1, hv1⟩ := pred_regex _ a1 hp
+  simp only [List.map, hv1]
+  exact ruleNamedNumberDuration_total _
+
+/-- the productions covered: all but the token readers (`int()` of captured text) -/
+def valueRules : List RuleId := [.ruleAbsorbOnTime, .ruleAbsorbFromInterval, .ruleNamedDOW, .ruleNamedMonth, .ruleNamedHour, .ruleMidnight, .ruleEarlyLatePOD, .rulePOD, .ruleToday, .ruleNow, .ruleTomorrow, .ruleAfterTomorrow, .ruleYesterday, .ruleBeforeYesterday, .ruleEOM, .ruleEOY, .ruleDOMMonth, .ruleDOMMonth2, .ruleMonthDOM, .ruleAtDOW, .ruleNextDOW, .ruleDOWNextWeek, .ruleDOYYear, .ruleDOWPOD, .ruleDOWDate, .ruleDateDOW, .ruleLatentDOM, .ruleLatentDOW, .ruleLatentDOY, .ruleLatentPOD, .ruleQuarterBeforeHH, .ruleQuarterAfterHH, .ruleHalfBeforeHH, .ruleHalfAfterHH, .ruleTODPOD, .rulePODTOD, .ruleDateTOD, .ruleTODDate, .ruleDatePOD, .rulePODDate, .ruleBeforeTime, .ruleAfterTime, .ruleDateDate, .ruleDOMDate, .ruleDateDOM, .ruleDOYDate, .ruleDateTimeDateTime, .ruleTODTOD, .rulePODPOD, .ruleDateInterval, .rulePODInterval, .ruleDurationHalf, .ruleIntervalConjDuration, .ruleIntervalDuration, .ruleDurationInterval, .ruleTimeDuration, .ruleDOWDOM, .ruleNamedNumberDuration]
 
 theorem value_rules_total (rid : RuleId) (hrid : rid ∈ valueRules) (r : String × List Pred) (hr : r ∈ ruleSigs) (hid : RuleId.ofName r.1 = some rid)
     (ts : Ts) (hts : TsOk ts) (args : List Art) (hl : args.length = r.2.length) (hp : (List.zipWith predHolds r.2 args).all id = true)
@@ -1127,7 +1156,7 @@ theorem value_rules_total (rid : RuleId) (hrid : rid ∈ valueRules) (r : String
   case ruleDOWNextWeek => have e := sig_ruleDOWNextWeek r hr ((ofName_nameOf _ _ hid).trans name_ruleDOWNextWeek); rw [e] at hl hp; exact applyId_total_ruleDOWNextWeek ts hts args hp hl hok
   case ruleDOYYear => have e := sig_ruleDOYYear r hr ((ofName_nameOf _ _ hid).trans name_ruleDOYYear); rw [e] at hl hp; exact applyId_total_ruleDOYYear ts hts args hp hl hok
   case ruleDOWPOD => have e := sig_ruleDOWPOD r hr ((ofName_nameOf _ _ hid).trans name_ruleDOWPOD); rw [e] at hl hp; exact applyId_total_ruleDOWPOD ts hts args hp hl hok
-  case ruleDOWDOM => exact absurd hrid (by decide)
+  case ruleDOWDOM => have e := sig_ruleDOWDOM r hr ((ofName_nameOf _ _ hid).trans name_ruleDOWDOM); rw [e] at hl hp; exact applyId_total_ruleDOWDOM ts hts args hp hl hok
   case ruleDOWDate => have e := sig_ruleDOWDate r hr ((ofName_nameOf _ _ hid).trans name_ruleDOWDate); rw [e] at hl hp; exact applyId_total_ruleDOWDate ts hts args hp hl hok
   case ruleDateDOW => have e := sig_ruleDateDOW r hr ((ofName_nameOf _ _ hid).trans name_ruleDateDOW); rw [e] at hl hp; exact applyId_total_ruleDateDOW ts hts args hp hl hok
   case ruleLatentDOM => have e := sig_ruleLatentDOM r hr ((ofName_nameOf _ _ hid).trans name_ruleLatentDOM); rw [e] at hl hp; exact applyId_total_ruleLatentDOM ts hts args hp hl hok
@@ -1162,7 +1191,7 @@ theorem value_rules_total (rid : RuleId) (hrid : rid ∈ valueRules) (r : String
   case ruleDateInterval => have e := sig_ruleDateInterval r hr ((ofName_nameOf _ _ hid).trans name_ruleDateInterval); rw [e] at hl hp; exact applyId_total_ruleDateInterval ts hts args hp hl hok
   case rulePODInterval => have e := sig_rulePODInterval r hr ((ofName_nameOf _ _ hid).trans name_rulePODInterval); rw [e] at hl hp; exact applyId_total_rulePODInterval ts hts args hp hl hok
   case ruleDigitDuration => exact absurd hrid (by decide)
-  case ruleNamedNumberDuration => exact absurd hrid (by decide)
+  case ruleNamedNumberDuration => have e := sig_ruleNamedNumberDuration r hr ((ofName_nameOf _ _ hid).trans name_ruleNamedNumberDuration); rw [e] at hl hp; exact applyId_total_ruleNamedNumberDuration ts hts args hp hl hok
   case ruleDurationHalf => have e := sig_ruleDurationHalf r hr ((ofName_nameOf _ _ hid).trans name_ruleDurationHalf); rw [e] at hl hp; exact applyId_total_ruleDurationHalf ts hts args hp hl hok
   case ruleIntervalConjDuration => have e := sig_ruleIntervalConjDuration r hr ((ofName_nameOf _ _ hid).trans name_ruleIntervalConjDuration); rw [e] at hl hp; exact applyId_total_ruleIntervalConjDuration ts hts args hp hl hok
   case ruleIntervalDuration => have e := sig_ruleIntervalDuration r hr ((ofName_nameOf _ _ hid).trans name_ruleIntervalDuration); rw [e] at hl hp; exact applyId_total_ruleIntervalDuration ts hts args hp hl hok
